@@ -44,26 +44,15 @@ theorem C16_assert_on_miss_fails_elsewhere :
 
 /-! ### table obligation: which observables of which classes read process-global state, and how -/
 
-/-- discipline of a scanned site -/
+/-- discipline of a scanned site (an unreachable read does not count) -/
 def siteDiscipline (s : Site) : Discipline :=
-  if !s.reads then .pure else if s.guarded then .recompute else .assertHit
+  if !s.reads || s.unreachable then .pure else if s.guarded then .recompute else .assertHit
 
-/- Full statement — FALSE on the current tree (D10): `_SetIndexPost._divisions` reads `divisions_lru`
-   behind an `assert`, so an optimized `set_index` / `sort_values` plan cannot report its divisions (nor be
-   computed) in a process that did not plan it.
-
-theorem C16_observables_table : ∀ s ∈ Generated.cacheSites, s.observable = true → siteDiscipline s ≠ .assertHit := by decide
--/
-
-/-- Every observable of every expression class that touches process-global state recomputes on a miss —
-    except exactly `_SetIndexPost._divisions`. -/
-theorem C16_observables_table_partial :
-    ∀ s ∈ Generated.cacheSites, s.observable = true → s.func ≠ "_shuffle.py:_SetIndexPost._divisions" →
-      siteDiscipline s ≠ .assertHit := by decide
-
-theorem C16_observables_table_counterexample :
-    ∃ s ∈ Generated.cacheSites, s.observable = true ∧ s.func = "_shuffle.py:_SetIndexPost._divisions" ∧
-      siteDiscipline s = .assertHit := by decide
+/-- Every observable of every expression class that touches process-global state computes from operands or
+    recomputes on a miss: no reachable assert-on-miss read is left (D10 was the one exception until /repo 53e3171;
+    its branch is now unreachable because every `_SetIndexPost(…)` call carries the divisions as an operand). -/
+theorem C16_observables_table :
+    ∀ s ∈ Generated.cacheSites, s.observable = true → siteDiscipline s ≠ .assertHit := by decide
 
 /-! ### non-vacuity -/
 
